@@ -645,7 +645,9 @@ func (st *rawState) oracle(v *vio) {
 		b := w.frames[0]
 		pa, ok := w.dests[0].(*packet.Addr)
 		if !ok || !bytes.Equal(pa.HardwareAddr, net.HardwareAddr{255, 255, 255, 255, 255, 255}) {
-			v.add("W-mac", "write %d: frame sent to %v, want the broadcast MAC", i, w.dests[0])
+			// the statement lists what the IPv4+UDP frame must look like; where on the link it is
+			// sent is not among it (a connection may learn to address the server's MAC)
+			st.s.Probe("frame-not-sent-to-the-broadcast-MAC (not judged)")
 		}
 		want := 28 + len(w.payload)
 		if len(b) != want {
